@@ -86,6 +86,8 @@ pub enum WOp {
     /// try a value that is expected to be refused and go on without it
     WriteColRefused(Val),
     EndRow,
+    /// end_row called this many times in a loop (counts no list of calls could hold)
+    EndRows(u64),
     WriteRow(Vec<Val>),
     Finish,
     FinishOne,
@@ -108,6 +110,7 @@ impl WOp {
             WOp::WriteColOr(a, b) => format!("write_col({}) or, if refused, write_col({})", val_short(a), val_short(b)),
             WOp::WriteColRefused(a) => format!("write_col({}) expecting a refusal", val_short(a)),
             WOp::EndRow => "end_row".into(),
+            WOp::EndRows(n) => format!("end_row x {}", n),
             WOp::WriteRow(v) => format!("write_row({})", v.len()),
             WOp::Finish => "finish".into(),
             WOp::FinishOne => "finish_one".into(),
@@ -333,6 +336,16 @@ pub fn run_prog<'a, W: Read + Write>(
                 Ok(St::R(r))
             }
             (St::R(mut r), WOp::EndRow) => r.end_row().map(|_| St::R(r)),
+            (St::R(mut r), WOp::EndRows(n)) => {
+                let mut res = Ok(());
+                for _ in 0..*n {
+                    res = r.end_row();
+                    if res.is_err() {
+                        break;
+                    }
+                }
+                res.map(|_| St::R(r))
+            }
             (St::R(mut r), WOp::WriteRow(vs)) => r.write_row(vs.iter()).map(|_| St::R(r)),
             (St::R(r), WOp::Finish) => r.finish().map(|_| St::Done),
             (St::R(r), WOp::FinishOne) => r.finish_one().map(St::Q),
